@@ -49,6 +49,10 @@ theorem foldl_pres {α β : Type} (π : Stack → β) (f : Stack → α → Stac
 
 @[simp] theorem base_with_flushLog (s : Stack) (x : List (Dest × List SDEntry)) : base { s with flushLog := x } = base s := rfl
 @[simp] theorem base_with_subLog (s : Stack) (x : List (Addr × Nat × List Eventgroup)) : base { s with subLog := x } = base s := rfl
+@[simp] theorem base_with_subDup (s : Stack) (x : Bool) : base { s with subDup := x } = base s := rfl
+@[simp] theorem base_with_subLost (s : Stack) (x : Bool) : base { s with subLost := x } = base s := rfl
+@[simp] theorem base_with_alive_subLost (s : Stack) (x y : Bool) : base { s with alive := x, subLost := y } = base s := rfl
+@[simp] theorem base_with_subDup_subEntries (s : Stack) (x : Bool) (y : List (Eventgroup × Addr)) : base { s with subDup := x, subEntries := y } = base s := rfl
 @[simp] theorem base_flushTo (s : Stack) (es : List SDEntry) (d : Dest) : base (s.flushTo es d) = base s := by
   unfold flushTo; rw [base_sendSd]; rfl
 
@@ -179,11 +183,11 @@ theorem foldl_pres {α β : Type} (π : Stack → β) (f : Stack → α → Stac
 @[simp] theorem base_subscriberStop (s : Stack) (b : Bool) : base (s.subscriberStop b) = base s := by
   unfold subscriberStop; split; rfl
   simp only []
-  have h1 : base (match ({ s with alive := false } : Stack).subTask with
-      | some tid => { ({ s with alive := false } : Stack).cancelTask (.subscribe, tid) with subTask := none }
-      | none => ({ s with alive := false } : Stack)) = base s := by
+  have h1 : base (match ({ s with alive := false, subLost := !b } : Stack).subTask with
+      | some tid => { ({ s with alive := false, subLost := !b } : Stack).cancelTask (.subscribe, tid) with subTask := none }
+      | none => ({ s with alive := false, subLost := !b } : Stack)) = base s := by
     split
-    · show base (({ s with alive := false } : Stack).cancelTask _) = base s; rw [base_cancelTask]; rfl
+    · show base (({ s with alive := false, subLost := !b } : Stack).cancelTask _) = base s; rw [base_cancelTask]; rfl
     · rfl
   split
   · rw [foldl_pres base _ (fun s p => by simp)]; exact h1
